@@ -341,6 +341,9 @@ def gen_interleaved_case(rng, sem):
             events.append(['step'])
         cur = 0
         if not forked and i >= 1 and rng.random() < 0.35 and satisfiable(sem, live_sets[0])[0]:
+            # (a manual fork after step() calls is not a history the prover produces: the helpers'
+            #  cached targets are copied to the fork and still point at the parent)
+            events[:] = [e for e in events if e[0] != 'step']
             events.append(['fork', 0])
             live_sets[nb] = list(live_sets[0])
             fresh_fork = nb
@@ -390,8 +393,13 @@ def execute_interleaved(spec):
             if ev[0] == 'step':
                 tab.step()
                 info['stepped'] += 1
+            elif ev[1] >= len(branches):
+                info['dropped'] += 1         # (a minimised history may have lost the fork)
             elif ev[0] == 'fork':
-                if branches[ev[1]].closed:
+                if any(e[0] == 'step' for e in spec['events'][:spec['events'].index(ev)]):
+                    info['dropped'] += 1
+                    branches.append(None)
+                elif branches[ev[1]] is None or branches[ev[1]].closed:
                     branches.append(None)
                 else:
                     branches.append(tab.branch(branches[ev[1]]))
